@@ -113,8 +113,9 @@ class Packed(dict):
         return (self[k] for k in self.keys())
 
 
-def run_many(cmd, programs, timeout=300, chunk=None):
-    """run programs through `cmd` (a line-protocol process) on all cores"""
+def run_many(cmd, programs, timeout=300, chunk=None, per_program=0.0):
+    """run programs through `cmd` (a line-protocol process) on all cores; a chunk may take `timeout` seconds plus
+    `per_program` seconds for each of its programs (a process that exceeds that is reported as hung)"""
     programs = list(dict.fromkeys(programs))
     if not programs:
         return {}
@@ -122,7 +123,7 @@ def run_many(cmd, programs, timeout=300, chunk=None):
     chunks = [programs[i:i + n] for i in range(0, len(programs), n)]
     results = Packed()
     with ThreadPoolExecutor(max_workers=NPROC) as ex:
-        for r in ex.map(lambda c: _run_chunk(cmd, c, timeout), chunks):
+        for r in ex.map(lambda c: _run_chunk(cmd, c, timeout + per_program * len(c)), chunks):
             for k, v in r.items():
                 results.put(k, v)
     return results
@@ -131,13 +132,14 @@ def run_many(cmd, programs, timeout=300, chunk=None):
 def run_impl(programs, full=False, starts=False, max_iters=200000, timeout=300):
     cmd = [HARNESS_BIN, "run", "--max", str(max_iters)] + (["--full"] if full else []) + \
         (["--starts"] if starts else [])
-    return run_many(cmd, programs, timeout)
+    # (an exploration capped at max_iters iterations gets time in proportion: a long exploration is not a hang)
+    return run_many(cmd, programs, timeout, per_program=max_iters / 1500.0)
 
 
 def run_twin(programs, full=False, starts=False, max_iters=200000, timeout=300):
     cmd = [DRIVER_BIN, "explore", "--max", str(max_iters)] + (["--full"] if full else []) + \
         (["--starts"] if starts else [])
-    return run_many(cmd, programs, timeout)
+    return run_many(cmd, programs, timeout, per_program=max_iters / 1500.0)
 
 
 # ----------------------------------------------------------------------------- records
